@@ -15,5 +15,8 @@ def run(ctx):
     ctx.explanation = EXPL
     ctx.level = 'other'
     ctx.assumptions = ['attribute lists and parent free-slot lists are sorted by index (documented precondition)']
+    from .. import schemespec
     for cfg, prog in ctx.programs().items():
         cursor.rule_cursor(ctx, cfg, prog)
+        ns = schemespec.rule_scheme(ctx, cfg, prog, which=['setup', 'keygen', 'nondelegable_keygen', 'qualifykey', 'nondelegable_qualifykey', 'resamplekey', 'decrypt', 'decrypt_master', 'encrypt_precomputed', 'precompute'])
+        ctx.floor('R-SCHEME path segments[%s]' % cfg, ns, 40)
